@@ -74,7 +74,7 @@ package document
 // entry is a fresh byte array of the same length; the source map and its byte arrays are only read; entries of
 // the destination that are not overwritten stay.
 //@ func (*TemplateEngine).cloneAllDocumentParts
-//@ props C17, C10, C18
+//@ props C17, C10, C18, C04
 //@ ghost B int
 //@ requires source != nil && dest != nil && dest.parts != nil && above(dest.parts, B) && source.parts != dest.parts
 //@ modifies map:string:[]byte
